@@ -226,6 +226,33 @@ func TestVerifC15Pipe(t *testing.T) {
 					}
 					ru.Backends = append(ru.Backends, b)
 				}
+				// two backends that are Services of one name (and port) in two namespaces: each keeps its own share
+				if r.Chance(1, 3) && ru.Backends[0].Name != "missing" {
+					rt := &c.Routes[ri]
+					other := "team-b"
+					if rt.NS == other {
+						other = "team-a"
+					}
+					ru.Backends[1].Name, ru.Backends[1].NS = ru.Backends[0].Name, vsPtr(other)
+					for _, ns := range []string{rt.NS, other} {
+						have := false
+						for _, sv := range c.Services {
+							have = have || (sv.NS == ns && sv.Name == ru.Backends[0].Name)
+						}
+						if !have {
+							c.Services = append(c.Services, vsService{NS: ns, Name: ru.Backends[0].Name, Ports: []int32{80}})
+						}
+					}
+					if r.Chance(5, 6) {
+						kind := "HTTPRoute"
+						if rt.GRPC {
+							kind = "GRPCRoute"
+						}
+						c.Grants = append(c.Grants, vsGrant{NS: other, Name: fmt.Sprintf("xg15-%d-%d", ri, ui), From: []vsGrantFrom{{Group: "gateway.networking.k8s.io", Kind: kind, NS: rt.NS}},
+							To: []vsGrantTo{{Group: "", Kind: "Service"}}})
+					}
+					out.Tally("twin_services", "yes")
+				}
 			}
 		}
 		w := vpRunState(c, false)
